@@ -148,6 +148,7 @@ pub const CARRIERS: &[&str] = &[
     // a receiver literal written far to the right (the call after it only fits once the literal has been
     // re-indented) whose argument is an anonymous method holding another literal
     "begin\n  Query.Text := \'\'\'\n                                                                      select id\n                                                                      \'\'\'.ForEach(procedure(const Line: string) begin if Line <> \'\' then Log.Add({}); end);\nend;\n",
+    "begin\n  Header := \'\'\'\n                                                  name;count\n                                                  \'\'\'.ForEach(procedure(const Column: string) begin\n    Log.Add(Column);\n    Footer := {};\n  end);\nend;\n",
     "begin\n  if A then\n    X := \'\'\'\n                                                            a\n                                                            \'\'\'.Replace(Aaaaa, procedure begin Y := {}; Z := 1; end);\nend;\n",
 ];
 
